@@ -412,6 +412,58 @@ fn all_orders(d: &Doc, cap: usize) -> Option<Vec<Doc>> {
     }
 }
 
+/// For every object with more than `max_members` members: the document with that
+/// object reversed, rotated by every offset, and with every adjacent pair swapped
+/// (all other objects in their given order). The original order comes first.
+fn family_orders(d: &Doc, max_members: usize) -> Vec<Doc> {
+    fn big_objects(d: &Doc, cur: &mut Loc, out: &mut Vec<(Loc, usize)>, max_members: usize) {
+        match d {
+            Doc::Seq(v) => {
+                for (i, e) in v.iter().enumerate() {
+                    cur.push(Step::Index(i));
+                    big_objects(e, cur, out, max_members);
+                    cur.pop();
+                }
+            }
+            Doc::Obj(m) => {
+                if m.len() > max_members {
+                    out.push((cur.clone(), m.len()));
+                }
+                for (k, e) in m {
+                    cur.push(Step::Key(k.clone()));
+                    big_objects(e, cur, out, max_members);
+                    cur.pop();
+                }
+            }
+            _ => {}
+        }
+    }
+    let mut objs = vec![];
+    big_objects(d, &mut vec![], &mut objs, max_members);
+    let mut out = vec![d.clone()];
+    for (loc, n) in objs {
+        let mut perms: Vec<Vec<usize>> = vec![];
+        perms.push((0..n).rev().collect());
+        for r in 1..n {
+            perms.push((0..n).map(|i| (i + r) % n).collect());
+        }
+        for i in 0..n - 1 {
+            let mut p: Vec<usize> = (0..n).collect();
+            p.swap(i, i + 1);
+            perms.push(p);
+        }
+        for p in perms {
+            let mut d2 = d.clone();
+            if let Some(Doc::Obj(m)) = d2.resolve_mut(&loc) {
+                let old = m.clone();
+                *m = p.iter().map(|i| old[*i].clone()).collect();
+            }
+            out.push(d2);
+        }
+    }
+    out
+}
+
 fn colliding(cat: &Catalogue, ty: &Ty, d: &Doc, depth: usize) -> bool {
     if depth > 8 {
         return false;
@@ -447,7 +499,7 @@ pub fn run_c15(e: &Engine) -> i32 {
     let roots: Vec<usize> = (0..e.cat.roots.len()).collect();
     let (max_members, faults, cap) = if e.tier == Tier::Quick { (4usize, 1usize, 600usize) } else { (5, 2, 3000) };
     let rich = e.tier == Tier::Thorough;
-    let skipped_big = AtomicUsize::new(0);
+    let big_family = AtomicUsize::new(0);
     let skipped_cap = AtomicUsize::new(0);
     e.par_roots(&roots, &|ri| {
         let root = &e.cat.roots[ri];
@@ -474,16 +526,22 @@ pub fn run_c15(e: &Engine) -> i32 {
             if mol < 2 {
                 continue; // nothing to permute
             }
-            if mol > max_members {
-                skipped_big.fetch_add(1, Ordering::Relaxed);
-                continue;
-            }
             if colliding(e.cat, &root.ty, doc, 0) {
                 continue;
             }
-            let Some(orders) = all_orders(doc, cap) else {
-                skipped_cap.fetch_add(1, Ordering::Relaxed);
-                continue;
+            let orders = if mol > max_members {
+                // objects too large for all m! orders: the complete family of reversal, all
+                // rotations and all adjacent transpositions of every large object (others fixed)
+                big_family.fetch_add(1, Ordering::Relaxed);
+                family_orders(doc, max_members)
+            } else {
+                match all_orders(doc, cap) {
+                    Some(o) => o,
+                    None => {
+                        skipped_cap.fetch_add(1, Ordering::Relaxed);
+                        continue;
+                    }
+                }
             };
             states += 1;
             let mut first: Option<(Signature, Option<String>, Doc)> = None;
@@ -527,7 +585,7 @@ pub fn run_c15(e: &Engine) -> i32 {
         rec.add_signatures(&sigs, &sigs);
     });
     rec.set_extra("max_members_per_object", json!(max_members));
-    rec.set_extra("payloads_skipped_because_an_object_has_more_members", json!(skipped_big.load(Ordering::Relaxed)));
+    rec.set_extra("payloads_with_a_larger_object_(explored_by_reversal_rotations_adjacent_transpositions)", json!(big_family.load(Ordering::Relaxed)));
     rec.set_extra("payloads_skipped_because_the_permutation_product_exceeds_the_cap", json!(skipped_cap.load(Ordering::Relaxed)));
     rec.set_extra("permutation_product_cap", json!(cap));
     rec.set_extra("faults_per_payload", json!(faults));
@@ -537,7 +595,7 @@ pub fn run_c15(e: &Engine) -> i32 {
     rec.sample(json!({"note": "every state is a payload; every transition one simultaneous permutation of the members of all its objects, presented through the order-preserving value source"}));
     rec.finish(
         "model_checking",
-        "states = (catalogue type, payload) with payloads from the fault closure (≤F faults) and all small documents, restricted to objects of ≤ M members and no two keys parsing to the same map key; transitions = every simultaneous permutation of the members of every object (full product, all m! orders per object), presented through the order-preserving second value source. Oracle (self-relative): the keep-going outcome signature (value | multiset of (kind, location, detail) reports, multiset of user-function calls) and the fail-fast success value are identical for every order. Payloads whose permutation product exceeds the cap are skipped and counted, never sampled.",
+        "states = (catalogue type, payload) with payloads from the fault closure (≤F faults) and all small documents, restricted to payloads in which no two keys parse to the same map key; transitions = every simultaneous permutation of the members of every object of ≤ M members (full product, all m! orders per object); for payloads with a larger object (e.g. the 24-field structs) the complete family of reversal, every rotation and every adjacent transposition of each large object, presented through the order-preserving second value source. Oracle (self-relative): the keep-going outcome signature (value | multiset of (kind, location, detail) reports, multiset of user-function calls) and the fail-fast success value are identical for every order. Payloads whose permutation product exceeds the cap are skipped and counted, never sampled.",
         &[
             "exhaustive only within the stated alphabets and bounds",
             "every explored behaviour is an execution of /repo's real deserr::deserialize",
